@@ -62,6 +62,7 @@ func TestVerif(t *testing.T) {
 		Assumptions: []string{"bbolt transactions are atomic", "model M1 recount is written from the statement of C02"},
 		Components: metaComponents,
 	})
+	simkit.Main(t, propC03())
 }
 
 // ---------------------------------------------------------------------------------------
